@@ -753,10 +753,13 @@ def oracle_config(impl, path, case):
 
 def oracle_presets():
     """direct reading of the first sentence of C19 -> list of (class, field, message)"""
-    import pydrex.core as core
-    import pydrex.mock as mock
     fails = []
-    d = core.DefaultParams()
+    try:
+        import pydrex.core as core
+        import pydrex.mock as mock
+        d = core.DefaultParams()
+    except Exception as e:  # noqa: BLE001
+        return [("DefaultParams", None, f"pydrex.core / pydrex.mock cannot be imported or DefaultParams() raises: {type(e).__name__}: {e}")]
     try:
         if not isinstance(hash(d), int):
             fails.append(("DefaultParams", None, "hash() is not an int"))
@@ -963,6 +966,12 @@ def run(chk):
         "splits); all 32 combinations of the five input-mode keys with stub files; every single fault; the witnesses of recorded "
         "findings; type confusions covered by the model. distinct = distinct TOML text; non-trivial = anything but the four fully "
         "populated files")
+    chk.assumptions.append(
+        "the PrimFloat.* / PrimInt63.* entries above are Coq's kernel primitives (binary64 floats, 63-bit integers) as "
+        "listed by Print Assumptions; the development declares no axiom")
+    chk.assumptions.append(
+        "binary64 statement: the sum invariant is |np.sum(fractions) - 1.0| <= 1e-16 evaluated in IEEE double arithmetic "
+        "with numpy's pairwise summation order (the arithmetic of the implementation), not a statement over the reals")
     status = finding_status()
     impl = Impl()
     bad, cases, V = [], [], {f: False for f in FLAGS}
